@@ -206,9 +206,11 @@ def make_fn(sc, mode):
         alg = Importance(T0) if sc.alg == "imp" else ImportanceK(T0, q, sc.K)
         return Marginal(sc.model, selection, alg)
 
-    def f(key, params, given, qparams):
+    def f(key, params, given, qparams, params0):
         args = G.model_args(net, sc.conv, params)
-        mg = marginal_of(args, given, qparams)
+        # the algorithm is built beforehand, for a target of its own: its arguments need not be
+        # the arguments the marginal is later called with
+        mg = marginal_of(G.model_args(net, sc.conv, params0), given, qparams)
         k1, k2 = jax.random.split(key)
         if mode == "rw":
             w, chm = mg.random_weighted(k1, *args)
@@ -230,13 +232,13 @@ def make_fn(sc, mode):
     return jax.jit(jax.vmap(f))
 
 
-def call_fn(fn, sc, params, given, keyseed, B, qparams=()):
+def call_fn(fn, sc, params, given, keyseed, B, qparams=(), params0=None):
     import jax
     import jax.numpy as jnp
 
     keys = jax.random.split(jax.random.key(int(keyseed)), B)
     out = fn(keys, [jnp.asarray(p) for p in params], [jnp.asarray(G.cast_value(sc.net, i, given[i])) for i in sc.sel],
-             [jnp.asarray(p) for p in qparams])
+             [jnp.asarray(p) for p in qparams], [jnp.asarray(p) for p in (params if params0 is None else params0)])
     return jax.tree_util.tree_map(np.asarray, out)
 
 
@@ -320,8 +322,12 @@ def exact_cell(ctx, ci, B):
     ctx.count(f"exact_cells[{selkind},{_algname(sc)}]")
     ctx.sample(describe(sc), limit=3)
     fn = make_fn(sc, "rw")
+    params0 = None
+    if alg != "none" and rng.random() < 0.5:
+        params0 = G.random_params(rng, sc.net, B)
+        ctx.count("exact_cells_algorithm_built_for_other_arguments")
     try:
-        out = call_fn(fn, sc, params, placeholder, rng.integers(1 << 30), B, qparams)
+        out = call_fn(fn, sc, params, placeholder, rng.integers(1 << 30), B, qparams, params0)
     except Exception as e:  # noqa: BLE001
         report_raise(ctx, sc, "random_weighted", e, params)
         return
@@ -439,9 +445,13 @@ def stat_cell(ctx, si, N, reps):
     ctx.count(f"stat_cells[{mode}]")
     ctx.sample(dict(describe(sc), statistical=mode, keys=N * reps), limit=3)
     fn = make_fn(sc, mode)
+    params0 = None
+    if alg != "none" and rng.random() < 0.4:
+        params0 = [np.repeat(p, N, axis=0) for p in G.random_params(rng, net, 1)]
+        ctx.count("stat_cells_algorithm_built_for_other_arguments")
 
     def draw(nrep):
-        return [call_fn(fn, sc, params, given, int(rng.integers(1 << 30)), N, qparams) for _ in range(nrep)]
+        return [call_fn(fn, sc, params, given, int(rng.integers(1 << 30)), N, qparams, params0) for _ in range(nrep)]
 
     try:
         first = draw(reps)
